@@ -1434,6 +1434,16 @@ func (g *gen) genStructs() []string {
 		b.WriteString("}")
 		decls = append(decls, b.String())
 	}
+	if g.chance(40, "hof") {
+		// higher-order helpers: function literals of many signatures in argument position
+		g.f("funclit-arguments")
+		decls = append(decls, "func hofRun(f func()) {\n\tf()\n}\n\nfunc hofTry(f func(string) (int, error), s string) (int, error) {\n\treturn f(s)\n}\n\nfunc hofBin(f func(a, b int) int) int {\n\treturn f(2, 3)\n}\n\nfunc hofVar(f func(xs ...int) int) int {\n\treturn f(1, 2, 3)\n}\n\nfunc hofPair(f func(int) (int, string)) string {\n\tn, s := f(4)\n\treturn fmt.Sprint(n, s)\n}\n\nfunc hofTwo() (int, string) {\n\treturn 7, \"seven\"\n}")
+	}
+	if g.chance(35, "embedzoo") {
+		// embedded fields of every spelling: T, *T, pkg.T, *pkg.T, a predeclared interface
+		g.f("embedded-field-zoo")
+		decls = append(decls, "type zooBase struct {\n\tid int\n}\n\nfunc (b *zooBase) ID() int { return b.id * 2 }\n\ntype zooMark struct {\n\tmark string\n}\n\ntype zoo struct {\n\t*zooBase\n\tzooMark\n\tstrings.Builder\n\t*sort.IntSlice\n\terror\n\tn int\n}")
+	}
 	return decls
 }
 
@@ -1745,6 +1755,29 @@ func GenOpt(opt Options) *rapid.Generator[*Program] {
 		g.budget = 12 + g.intn(20, "mainbudget")
 		for g.budget > 0 {
 			p.Main = append(p.Main, g.stmt(msc, 3))
+		}
+		if strings.Contains(strings.Join(p.Decls, "\n"), "func hofRun(") {
+			calls := []string{
+				"hofRun(func() { return })",
+				"hofRun(func() {\n\tfmt.Println(\"hof run\")\n\treturn\n})",
+				"hofRun(func() { fmt.Println(\"hof one-line\") })",
+				"fmt.Println(hofTry(func(s string) (int, error) { return strconv.Atoi(s) }, \"12\"))",
+				"fmt.Println(hofTry(func(s string) (int, error) {\n\tn, err := strconv.Atoi(s)\n\treturn n + 1, err\n}, \"x1\"))",
+				"fmt.Println(hofTry(func(s string) (n int, err error) {\n\tn = len(s)\n\treturn\n}, \"abc\"))",
+				"fmt.Println(hofBin(func(a, b int) int { return (a + b) * 2 }))",
+				"fmt.Println(hofBin(func(a, b int) int { return a*b + " + g.expr(msc, tInt, 1) + " }))",
+				"fmt.Println(hofBin(func(a, _ int) int { return -a }))",
+				"fmt.Println(hofVar(func(xs ...int) int { return len(xs) + xs[0] }))",
+				"fmt.Println(hofPair(func(n int) (int, string) { return hofTwo() }))",
+				"fmt.Println(hofPair(func(n int) (int, string) { return n * 2, \"d\" }))",
+				"fmt.Println(hofBin(func(a, b int) int {\n\tif a > b {\n\t\treturn a\n\t}\n\treturn b\n}))",
+			}
+			for n := 2 + g.intn(4, "hofn"); n > 0; n-- {
+				p.Main = append(p.Main, calls[g.intn(len(calls), "hofcall")])
+			}
+		}
+		if strings.Contains(strings.Join(p.Decls, "\n"), "type zoo struct") {
+			p.Main = append(p.Main, fmt.Sprintf("{\n\tz := zoo{zooBase: &zooBase{id: %s}, zooMark: zooMark{\"m\"}, IntSlice: &sort.IntSlice{3, 1, 2}, n: 1}\n\tz.WriteString(\"zoo\")\n\tsort.Sort(z.IntSlice)\n\tfmt.Println(\"zoo\", z.id, z.ID(), z.mark, z.Builder.Len(), *z.IntSlice, z.error == nil, z.n)\n}", g.expr(msc, tInt, 1)))
 		}
 		if strings.Contains(strings.Join(p.Decls, "\n"), "Celsius") {
 			p.Main = append(p.Main, fmt.Sprintf("fmt.Println(\"named\", Celsius(%s).Fahr(), IntList(%s).Sum(), len(IntList{1, 2}))", g.floatLit(), g.expr(msc, tSliceInt, 2)))
